@@ -151,9 +151,15 @@ impl PartStats {
         } else if out.nontrivial {
             let s = serde_json::to_string(case).unwrap_or_default();
             let h = hash64(&s);
-            if self.nontrivial.insert(h) && self.samples.len() < 2 && s.len() < 6000 {
-                if let Ok(v) = serde_json::from_str::<Value>(&s) {
-                    self.samples.push(v);
+            if self.nontrivial.insert(h) && self.samples.len() < 2 {
+                if s.len() < 12_000 {
+                    if let Ok(v) = serde_json::from_str::<Value>(&s) {
+                        self.samples.push(v);
+                    }
+                } else {
+                    // large cases (histories with 30 rule bodies, long documents): keep the head of the serialised case
+                    let head: String = s.chars().take(6000).collect();
+                    self.samples.push(json!({"case_json_head": head, "case_json_bytes": s.len()}));
                 }
             }
         }
